@@ -181,7 +181,7 @@ func runC10InBubble(c c10Case) (out kit.Outcome) {
 		viol = &o
 	}
 	// unwind
-	msg := w.unwind(time.Duration(c.Stack.TimeoutMs)*time.Millisecond + 2*time.Second)
+	msg := w.unwind(c.Stack.unwindWait())
 	w.flush()
 	if viol != nil {
 		return *viol
